@@ -18,6 +18,7 @@ for sid in sorted(os.listdir(os.path.join(VERIF, "seeded"))):
 n = len(metas)
 r1 = [m for m in metas if m.get("round") == 1]
 r2 = [m for m in metas if m.get("round") == 2]
+r3 = [m for m in metas if m.get("round") == 3]
 
 
 def verdict(m, label=""):
@@ -28,25 +29,34 @@ def verdict(m, label=""):
 caught_now = sum(1 for m in metas if verdict(m) == "CAUGHT")
 r1_first = sum(1 for m in r1 if "first built" in m.get("history", ""))
 r2_before = sum(1 for m in r2 if verdict(m, "before-round2-strengthening") == "CAUGHT")
+r3_before = sum(1 for m in r3 if verdict(m, "before-round3-strengthening") == "CAUGHT")
+missed_now = [m["id"] for m in metas if verdict(m) != "CAUGHT"]
 table = subprocess.run(["python3", os.path.join(VERIF, "tools", "seeded_table.py")], stdout=subprocess.PIPE).stdout.decode()
 s += f'''
 --------------------------------------------------------------------------------
 
 ## 12. Seeded changes: which check catches which change
 
-{n} changes to gldap (four per property, in two rounds) were produced by fresh
+{n} changes to gldap (six per property, in three rounds) were produced by fresh
 sub-agents that were given **only the text of one property** and a scratch
 worktree of `/repo` - nothing from `/verif` - and asked for a change that still
 compiles, still passes the repository's suite and breaks the property in a way
 that needs something specific to manifest (an interleaving, a fault at a
 particular point, a multi-step sequence, an unusual input, two cooperating
-sites), together with a demonstration. The second round was additionally told
-which ideas the first round had already used. Each change was confirmed before
+sites), together with a demonstration. The second and third round were
+additionally told which ideas the earlier rounds had already used, and the
+third was asked for the subtlest change it could still demonstrate (narrow
+trigger regions welcome as long as they lie inside the property's own domain).
+Each change was confirmed before
 it was kept (`tools/seeded.py confirm`: fresh worktree of `/repo` HEAD outside
 `/repo` and `/verif`, patch applies, `go build ./...`, repository suite passes
 with the patch - 2 of at most 3 runs, the repository's own suite collides on
 ports now and then on a busy machine -, demonstration fails with the patch and
-passes without it); all {n} were confirmed. They are kept as
+passes without it); all {n} were confirmed. When a later `fix:` commit to
+`/repo` made a kept patch inapplicable (14 patches after the two repairs of
+hour 10), `tools/seeded.py rebase` re-applied it with a three-way merge in a
+scratch worktree (six by hand where the merge conflicted), re-ran build, suite
+and demonstration and rewrote `patch.diff` (`meta.json: rebased`). They are kept as
 `seeded/<id>/{{patch.diff, demo_test.go, NOTES.md, meta.json}}`; none is ever
 committed to `/repo`. To run the checks against one:
 `git -C /repo apply /verif/seeded/<id>/patch.diff; ./check <prop> --tier quick;
@@ -57,14 +67,32 @@ restores the evidence files afterwards).
 (seed 1): {r1_first} caught, {len(r1) - r1_first} not. **Round 2** ({len(r2)} changes). The
 quick tier as it stood after round 1 (checkout of `/verif` at `79f8b6f`, run
 with `tools/seeded.py run --check-dir`): {r2_before} caught, {len(r2) - r2_before} missed.
+**Round 3** ({len(r3)} changes). The quick tier as it stood after round 2
+(checkout at `8b2cefa`): {r3_before} caught, {len(r3) - r3_before} missed.
 The misses were not accidents of the seed; each pointed at a region of the
 property's own domain that the generator did not reach. The checks were
 strengthened by widening the *generators and scenario families* along the
 property's quantifier - never by special-casing a patch - first from the
-sub-agents' descriptions, then from the remaining misses, and **all {n} are
-caught by the quick tier now** ({caught_now} of {n} in the last complete run,
-seed 1). What was added is listed per property in the "As built" notes of §4
+sub-agents' descriptions, then from the remaining misses; in the last complete
+run (seed 1) the quick tier catches **{caught_now} of {n}**{(" (not caught: " + ", ".join(missed_now) + " - see below)") if missed_now else ""}. What was added is listed per property in the "As built" notes of §4
 and per change in `meta.json` (`history`). The lessons that generalise:
+
+* *The moment of Stop* (round 3, and the sweep of hour 10): connections that
+  exist *before* Stop is called say nothing about a connection the accept loop
+  is still registering when Stop arrives - clients must also connect *while*
+  Stop runs, in storms, with the collector off (C11-late, C12-f; two genuine
+  defects of the tree were found this way, §10).
+* *Retry, wrap-around, shortage* (C17-e/f, C09-e): a second Run on the same
+  Server after a failed one, a connection counter past 2¹⁶, and a descriptor
+  shortage that lasts longer than a retry budget are all ordinary life for a
+  long-running server.
+* *What the client should not do* (C13-e, C18-e/f, C10-e): plaintext behind the
+  StartTLS request, a foreign SNI, half a TLS record, an Unbind behind sixteen
+  running handlers - the property's "hostile or careless client" has to be
+  generated too, and the oracle must then separate what the statement promises
+  from what the client did to itself (§11, 12).
+* *Fatal is not panic* (C16-f): a Go fatal error cannot be recovered, so
+  concurrent use of constructors is run in a child process.
 
 * *Blocking many, not blocking deep* (C06-a): a reversed wait chain looks like
   the worst case but only ever blocks two handlers; "all wait for the last"
